@@ -288,6 +288,50 @@ def rule_r4_r5(chk, p, t):
         "only from the propagation, geopotential, perturbations and time sections and the agent's own config; the "
         "estimate's propagation settings are a deep copy",
     )
+    # the factory itself hands out a fresh object per call
+    fac = p.func("resonaate.dynamics.dynamicsFactory")
+
+    def fresh():
+        def fresh_expr(e, fi, depth=0):
+            """None if ``e`` is certainly a newly constructed object, else a reason."""
+            if not isinstance(e, ast.Call):
+                return f"`{unparse(e)[:60]}` is not a constructor call"
+            tgs = t.callees(e, fi)
+            if isinstance(e.func, ast.Name) and p.has_cls(e.func.id) if hasattr(p, "has_cls") else False:
+                return None
+            from rsa.model import ClassInfo, FunctionInfo
+
+            if any(isinstance(x, ClassInfo) for x in tgs) or any(isinstance(x, FunctionInfo) and x.name == "__init__" for x in tgs):
+                return None
+            fns_ = [x for x in tgs if isinstance(x, FunctionInfo)]
+            if len(fns_) == 1 and depth < 2:
+                h = fns_[0]
+                rets = [n for n in walk_no_nested(h.node) if isinstance(n, ast.Return) and n.value is not None]
+                if not rets:
+                    return f"{h.qualname} returns nothing"
+                defs = single_defs(h.node)
+                for rt in rets:
+                    v = defs.get(rt.value.id, rt.value) if isinstance(rt.value, ast.Name) else rt.value
+                    if isinstance(v, ast.Call) and unparse(v.func) == "cls":
+                        continue
+                    why = fresh_expr(v, h, depth + 1)
+                    if why:
+                        return f"{h.name}() returns `{unparse(rt.value)[:50]}`: {why}"
+                return None
+            return f"`{unparse(e)[:60]}` could not be resolved to a constructor"
+
+        asg = [n for n in walk_no_nested(fac.node) if isinstance(n, ast.Assign) and isinstance(n.targets[0], ast.Name) and n.targets[0].id == "dynamics"]
+        rets = [n for n in walk_no_nested(fac.node) if isinstance(n, ast.Return) and n.value is not None]
+        require(rets and all(isinstance(x.value, ast.Name) and x.value.id == "dynamics" for x in rets) and asg, "dynamicsFactory does not return its local `dynamics`", fac.node)
+        bad = [(a, fresh_expr(a.value, fac)) for a in asg]
+        bad = [(a, w) for a, w in bad if w]
+        if bad:
+            a, w = bad[0]
+            r4.violation(fac.qualname + ":fresh", f"factory-not-fresh:{unparse(a.value)[:50]}", f"dynamicsFactory hands out `{unparse(a.value)[:70]}` which is not a newly constructed object ({w}): agents built with equal settings share one dynamics object, so agent-specific state (area-to-mass ratio, armed thrust, start date) of one agent drives the truth of another and removing an agent changes the rest", fac.loc(a))
+        else:
+            r4.ok(fac.qualname + ":fresh", f"{len(asg)} branches, each a constructor call", fac.loc())
+
+    r4.guard(fac.qualname + ":fresh", fresh)
     fns = [p.func("ScenarioBuilder._initTargets"), p.func("ScenarioBuilder._initEstimates"), p.func("ScenarioBuilder._initSensors"), p.func("Scenario._addTargetConf"), p.func("Scenario._addSensorConf")]
     for fn in fns:
 
@@ -429,6 +473,30 @@ def rule_r7(chk, p, t):
         r.violation(sdo.qualname, f"output-writes-truth:{bad[0].path}", f"saving output has a `{bad[0].kind}` effect on `{bad[0].path}`: the output cadence would change the truth", bad[0].loc())
     else:
         r.ok(sdo.qualname, f"{len(effs)} effects, none on a truth agent", sdo.loc())
+    # nothing the output path assigns is read by the step (accumulating into an output buffer is not a read)
+    step = p.func("Scenario.stepForward")
+    from rsa.util import parents_map
+
+    pm_s = parents_map(step.node)
+    reads = {}
+    for n in walk_no_nested(step.node):
+        if isinstance(n, ast.Attribute) and isinstance(n.value, ast.Name) and n.value.id == "self" and isinstance(n.ctx, ast.Load):
+            par = pm_s.get(n)
+            accum = (isinstance(par, ast.Subscript) and isinstance(par.ctx, ast.Store)) or (isinstance(par, ast.Attribute) and par.attr in ("append", "extend", "update", "add") and isinstance(pm_s.get(par), ast.Call))
+            if not accum:
+                reads.setdefault(n.attr, n)
+    assigned = {}
+    for n in walk_no_nested(sdo.node):
+        if isinstance(n, (ast.Assign, ast.AugAssign, ast.AnnAssign)):
+            for tg in n.targets if isinstance(n, ast.Assign) else [n.target]:
+                if isinstance(tg, ast.Attribute) and isinstance(tg.value, ast.Name) and tg.value.id == "self":
+                    assigned.setdefault(tg.attr, n)
+    shared = sorted(set(assigned) & set(reads))
+    if shared:
+        f = shared[0]
+        r.violation(sdo.qualname + ":step-state", f"output-assigns-step-state:{f}", f"saveDatabaseOutput assigns `self.{f}` (`{unparse(assigned[f])[:60]}`) and stepForward reads it (`{unparse(pm_s.get(reads[f], reads[f]))[:60]}`): what a step does depends on when output was last written, i.e. on the output cadence", sdo.loc(assigned[f]))
+    else:
+        r.ok(sdo.qualname + ":step-state", f"saveDatabaseOutput assigns {sorted(assigned)}; stepForward reads none of them", sdo.loc())
     pt = p.func("Scenario.propagateTo")
     direct = []
     for n in walk_no_nested(pt.node):
